@@ -26,6 +26,7 @@ next to it; the safety rules that make the intended tree the ONLY reading are:
   R10 lazy continuation lines (5.1, 5.2) drop ALL container prefixes at once and
       only for paragraph continuation lines (which start with a word, R1).
 """
+import os
 import html as _html
 import re
 
@@ -80,18 +81,19 @@ class Opt:
         self.prose = False            # C10: prose-only leaf blocks, rich inline
         self.outline = False          # C19: plain-word headings forming an outline
         self.setext_in_quote = True   # (was known finding C03/C04-setext-in-quote; repaired)
-        self.lazy_after_indented = False   # known finding C03-lazy-after-indented-in-quote
+        self.lazy_after_indented = True    # (was known finding C03-lazy-after-indented-in-quote, repaired in c774fd1)
         self.setext_space_hard_break = True    # (was known finding C03-setext-trailing-space-hard-break, repaired in 6a8c723)
         self.tilde_code_in_strike = False      # known finding C03-strike-vs-code-tilde
         self.empty_last_item = False           # known finding C03-empty-last-item-swallows-blank
         self.table_escaped_pipe = True         # (was off for the round-trip profiles: C09-escaped-pipe-in-table-cell, repaired in f65540f)
         self.table_first_in_item = False   # known finding C03-table-starts-later-list-item
-        self.para_after_closed_container = False   # known finding C03-lazy-after-nonparagraph: off by default
+        self.para_after_closed_container = True    # (was known finding C03-lazy-after-nonparagraph-*, repaired in c774fd1)
         self.odd_blank_lines = False  # blank lines made of FF / NBSP / EM SPACE ... (round-trip profile only)
         self.adjacent_lists = False   # a list directly followed (after a blank line) by a list of another type (profile "full")
         self.ws_blank_lines = False   # blank lines made of spaces / tabs (profiles "full", "roundtrip")
         self.exotic_words = False     # words containing FF / NEL / LS ... (profile "full")
         self.rich_links = False       # destinations / titles with escapes, references and Markdown-significant characters (profile "full")
+        self.code_first_items = True  # list items that begin with indented code: marker, one space, then the four columns of the code (5.2 rule 2)
         self.lazy = True
         self.omit_blank = True
         self.indent = True
@@ -107,6 +109,10 @@ class Opt:
         self.max_blocks = 40
         for k, v in kw.items():
             setattr(self, k, v)
+        # maintenance only (trying a candidate repair before a finding is closed): VERIF_GEN_OPTS="switch=1,other=0"
+        for item in filter(None, os.environ.get('VERIF_GEN_OPTS', '').split(',')):
+            k, _, v = item.partition('=')
+            setattr(self, k.strip(), v.strip() not in ('0', '', 'False'))
 
 
 class Line:
@@ -517,9 +523,7 @@ class Gen:
         if opt.outline and kind in ('atx', 'setext'):
             kind = 'para'       # headings are placed by the outline profile itself
         # R6
-        if kind == 'icode' and (first and in_list or (prev is not None and prev.kind in ('para', 'list', 'icode'))):
-            kind = 'para'
-        if kind == 'icode' and first and in_list:
+        if kind == 'icode' and ((first and in_list and not opt.code_first_items) or (prev is not None and prev.kind in ('para', 'list', 'icode'))):
             kind = 'para'
         if kind == 'setext' and in_quote and not opt.setext_in_quote:
             kind = 'atx'
@@ -716,11 +720,6 @@ def deep_last(nd):
     return nd
 
 
-def direct_quote_leaf(nd):
-    """Is the container a block quote whose own last child is a leaf block (no container in between)?"""
-    return nd.kind == 'quote' and bool(nd.blocks) and nd.blocks[-1].kind not in ('quote', 'list')
-
-
 def can_follow(prev, nxt, opt=None):
     """May ``nxt`` directly follow ``prev`` without a blank line and still be the intended tree (R9)?"""
     pk, nk = prev.kind, nxt.kind
@@ -741,14 +740,10 @@ def can_follow(prev, nxt, opt=None):
             return False
         if leaf.kind == 'para':
             return can_follow(leaf, nxt, opt)             # what can interrupt that paragraph also ends its lazy continuation
-        if leaf.kind == 'fence' and leaf.closed and nk in ('para', 'setext', 'table') and direct_quote_leaf(prev):
-            # the closing fence line ends the code block: the next line cannot continue it lazily, the quote ends (5.1).
-            # (one level only: through a further quote this is the known finding C03-lazy-after-nonparagraph-in-quote)
-            return True
         if leaf.kind in ('atx', 'hr') or (leaf.kind == 'fence' and leaf.closed):
             if nk in ('para', 'setext', 'table'):
                 # nothing is open that the line could continue lazily: it starts a new paragraph after the container
-                return bool(opt is not None and opt.para_after_closed_container)     # known finding C03-lazy-after-nonparagraph
+                return bool(opt is None or opt.para_after_closed_container)
             if nk == 'hr':
                 return nxt.spell[0] in '*_'
             return nk in ('atx', 'fence') or (nk == 'html' and nxt.cond != 7)
@@ -802,7 +797,7 @@ def check_tree(blocks, opt, ctx='doc', in_quote=False, last_chain=True):
             same = nd.ordered == prev.ordered and (nd.delim == prev.delim if nd.ordered else nd.bullet == prev.bullet)
             if same or not opt.adjacent_lists:
                 raise AssertionError('R5: adjacent lists')
-        if k == 'icode' and (prev is not None and prev.kind in ('para', 'list', 'icode') or (i == 0 and ctx == 'item')):
+        if k == 'icode' and (prev is not None and prev.kind in ('para', 'list', 'icode') or (i == 0 and ctx == 'item' and not opt.code_first_items)):
             raise AssertionError('R6: indented code position')
         if k == 'setext' and in_quote and not opt.setext_in_quote:
             raise AssertionError('setext in quote (known finding)')
@@ -1083,9 +1078,14 @@ class Emitter:
             return [Line(ind + marker, kind='item-empty')]
         inner = self.blocks(item.blocks, 'item', tight=lst.tight)
         item.had_blank = self.had_blank
-        if inner and inner[0].text.startswith(' ') and not item.blank_start:
+        code_first = item.blocks[0].kind == 'icode'
+        if inner and inner[0].text.startswith(' ') and not item.blank_start and not code_first:
             raise AssertionError('first line of item content starts with a space (would change the content offset, 5.2)')
-        pad = 1 if opt.canonical else item.pad
+        pad = 1 if opt.canonical or code_first else item.pad
+        if code_first:
+            if item.blank_start:
+                raise AssertionError('item that begins with a blank line and then indented code')
+            self.stat('item-begins-with-indented-code')       # 5.2 rule 2: the content starts one column after the marker
         out = []
         if item.blank_start:
             self.stat('item-begins-with-blank-line')
@@ -1096,6 +1096,8 @@ class Emitter:
             w = len(ind) + len(marker) + pad
             first = inner[0]
             first.text = ind + marker + ' ' * pad + first.text
+            if code_first:
+                first.kind = 'icode-after-marker'      # (a code line of '-' / '*' characters behind a bullet reads as a thematic break: checked at the end)
             out.append(first)
             rest = inner[1:]
         item.width = w
